@@ -576,28 +576,15 @@ def search(ctx, rebound, libdir):
             sets[rng.randrange(nset)] = (rng.choice(["m", "mcart"]), rng.choice([1, 2]))
         ops = []
         for _ in range(rng.choice([1, 1, 2, 3])):
-            # move_to_hel leaves the variational particles alone (source comment), which is right only while the variation of
-            # particle 0 is zero, i.e. before any move_to_com; the other case is probed under its own key below
+            # docs/simulationreferenceframes.md: move_to_hel "moves all particles by the same amount" and "Variational equations
+            # are not affected by this operation" (documented behaviour).  It is therefore only judged where that reading makes
+            # the sets derivatives of the shifted state: while the variation of particle 0 is zero, i.e. before any move_to_com
             o = rng.choice(["com", "com", "hel", "rot"] if not any(q[0] == "com" for q in ops) else ["com", "rot"])
             ops.append(("rot", rng.uniform(-3, 3), [rng.gauss(0, 1), rng.gauss(0, 1), rng.gauss(0, 1)]) if o == "rot" else (o,))
         do("multiset", {"integrator": rng.choice(["ias15", "ias15", "bs"]), "system": base_system(rng), "sets": sets, "ops": ops},
            ("multi", nset, "+".join(o[0] for o in ops)))
 
-    # move_to_hel after move_to_com (variation of particle 0 non-zero): open finding move_to_hel_ignores_variations
-    spec = {"integrator": "ias15", "system": base_system(rng), "sets": [("a", 1), ("m", 2)], "ops": [("com",), ("hel",)]}
-    try:
-        ok, det = check_multiset(lib, spec)
-    except Inconclusive:
-        ok, det = True, {}
-    except Exception as e:
-        ok, det = False, {"exception": repr(e)}
-    ctx.case(key=("multiset", "com+hel"))
-    if not ok:
-        ctx.violation("move_to_hel_ignores_variations", {"check": "multiset", "spec": spec, "detail": det}, True,
-                      "reb_simulation_move_to_hel does not move the variational particles: after it they are no longer the "
-                      "derivative of the (shifted) state when the variation of particle 0 is non-zero")
-
-    # open findings probed under stable keys: softened force, rescaling of a set with a mass variation
+    # fixed findings (/repo 73bd0c3, 32cf4f3) probed under stable keys: softened force, rescaling of a set with a mass variation
     for key, kind, spec, what in (
         ("var_gravity_ignores_softening", "softening", {"system": base_system(rng), "x": rng.choice(C6), "softening": rng.uniform(0.05, 0.3)},
          "with softening != 0 the variational particles are not the derivative of the trajectory (variational gravity ignores softening)"),
